@@ -137,10 +137,15 @@ def run_shard(ctx):
                     if not ctx.mine(k):
                         continue
                     cols = [S.make_column("c%d" % q, (["int"], None), []) for q in range(4)]
+                    long_name = None
+                    if k % 5 == 2:
+                        # a key column whose name is longer than any identifier limit of a real server (64+ characters)
+                        long_name = "customer_relationship_management_account_identifier_for_partner_%d" % k
+                        cols[0]["name"] = long_name
                     if k % 4 == 0:
                         cols[3]["opts"] = [{"k": "pk"}]        # the key declared twice: inline on c3 and by the clause
-                    cl = {"kind": "pk", "cols": ["c%d" % q for q in range(ncols)], "name": name, "orders": list(orders), "modifier": modifier}
-                    if k % 6 in (1, 4):
+                    cl = {"kind": "pk", "cols": [(long_name if (q == 0 and long_name) else "c%d" % q) for q in range(ncols)], "name": name, "orders": list(orders), "modifier": modifier}
+                    if k % 6 in (1, 4) and not long_name:
                         cl["cols"] = ["c%d" % (3 - q) for q in range(ncols)]      # the key starts with the table's LAST column
                     t = {"schema": None, "name": "t", "prefix": "plain", "items": [("col", c) for c in cols] + [("clause", cl)]}
                     layout = [None, {"case": "lower"}][k % 2]
@@ -155,7 +160,7 @@ def run_shard(ctx):
                                  # ... and a column ADDed with its own inline key / reference
                                  ["ALTER TABLE t ADD order_id int PRIMARY KEY;"], ["ALTER TABLE t ADD ref_id int NOT NULL REFERENCES p (k);", "ALTER TABLE t ADD y int PRIMARY KEY;"]][(k // 3) % 10]
                     ddl = finish_script([render(S.table_tokens(t), layout, rng)] + extra + ["DROP TABLE old_t;", "DROP TABLE s.old_t2;"])
-                    for mode in ("sql", "mssql", "bigquery", "oracle"):
+                    for mode in ("sql", "mssql", "bigquery", "oracle", "postgres", "mysql"):
                         case = {"gen": "key_orders", "ddl": ddl, "ctor": {}, "mode": mode, "group_by_type": bool(k % 3 == 0), "json_dump": True}
                         if extra and extra[0].startswith("ALTER TABLE t DROP COLUMN c"):
                             case["dropped_key_column"] = cl["cols"][-1]
